@@ -731,8 +731,8 @@ def execute(case, keep_log=False):
         t0live = conn.tables.get('t0')
         if t0live is not None and t0live.rows != [tuple(world.dec(x) for x in r) for r in W['tables'][0]['rows']]:
             violation('source-data-mutated', 'end', {'op': 'end'}, 'table rows unchanged', 'table rows changed')
-        expected_tables = {'', 'accounts', 'balances', 'commodities', 'documents', 'entries', 'events', 'notes', 'postings',
-                           'prices', 'transactions', 't0'} | ({'t1'} if late_registered[0] is not None else set())
+        with world.reference_mode():
+            expected_tables = set(world.make_connection(ledgers[cur_ledger[0]], tableset(), copy=1).tables)
         if set(conn.tables) != expected_tables:
             violation('tables-changed', 'end', {'op': 'end'}, sorted(expected_tables), sorted(conn.tables))
         stats['nontrivial'] = bool((flags['reuse'] or flags['many'] or flags['nested']) and len(executed_texts) >= 2)
